@@ -1,4 +1,4 @@
-\* probing phase of a new transfer, every -B class, one pause; real constants, channel capacities 2
+\* two files: size persists, probing does not restart; liveness (the encoder never waits for ever)
 SPECIFICATION Spec
 CONSTANTS
   Floor = 1024
@@ -8,17 +8,18 @@ CONSTANTS
   BoundFloor = 1048576
   SendCap = 2
   AckCap = 2
-  MaxBufs = {1024, 4096, 10240, 40960, 1073741824}
+  MaxBufs = {40960}
   Modes = {"bin"}
-  Protos = {4}
+  Protos = {2, 4}
   Secs = {2, 20}
-  MaxChunks = 2
+  MaxChunks = 1
   P1MaxChunks = 1
-  MaxFiles = 1
-  MaxPauses = 1
+  MaxFiles = 2
+  MaxPauses = 0
   StartSizes = {}
   Variant = "coded"
 INVARIANTS TypeOK SizeInRange ChunksInRange NeverRejectedByReceiver NothingQueuedIsRejected ProbeEndsOnce
   TokenPaired EncoderNotStuck OneChunkWhileProbing DoubleOnlyWhenAllowed ShrinkOnlyWhenSlow
   SuspendedAfterPause ProbeEndedBy
+PROPERTIES Termination
 CHECK_DEADLOCK TRUE
